@@ -96,7 +96,8 @@ def seed_corpus(target, dst):
         p = max(prev, key=os.path.getmtime)
         for x in os.listdir(p):
             if not os.path.exists(os.path.join(dst, x)):
-                shutil.copy(os.path.join(p, x), os.path.join(dst, x)); n += 1
+                try: shutil.copy(os.path.join(p, x), os.path.join(dst, x)); n += 1
+                except OSError: pass          # another run may be cleaning that cache up
     return n
 
 def run_target(bindir, target, corpus, secs, forks, log):
